@@ -46,6 +46,8 @@ def typeclass(t):
         return 'lockguard'
     if re.match(r'(cappuccino::)?mutex<', t):
         return 'mutex'
+    if re.match(r'std::(atomic<|__atomic_base<|atomic_(u?int|size_t|bool|u?long|u?llong|flag))', t):
+        return 'atomic'
     if t.startswith('std::mersenne_twister_engine<') or t == 'std::mt19937':
         return 'rng'
     if t.startswith('std::uniform_int_distribution<'):
